@@ -2,7 +2,7 @@ FIX_COMMITS = ['81ddff2', '385433c', 'cc971f4', 'bbe6c99', 'bc82b1c', '737bbcb',
 NOTES = 'Contract-based deductive verification of the real code: see DESIGN.md. exit 2 of a check means undecided (lost anchor / unsupported construct / resource limit), never an alarm.'
 CHECKS = {
     'C11': {
-        'text': 'Verus discharges, for all states and arguments, the exact transition contracts of the per-peer sync slot (PeerState::{start_connect,accept_request,finish,set_sync_running}) on the real function text extracted from src/engine/state.rs on every run.',
+        'text': 'Verus discharges, for all states and arguments, the exact transition contracts of the per-peer sync slot (PeerState and NamespaceStates) and the slot postconditions of the live actor handlers on the real text: a finished, failed or declined dial never leaves the slot marked as dialing, an accepted session frees the slot, exactly one follow-up dial iff a report was refused, a dial task is spawned iff start_connect allowed it, unknown documents are declined as not found; lemmas over these contracts give the simultaneous-dial tie-break.',
         'design_ref': 'DESIGN.md section 5, C11',
         'note': 'Trusted: SystemTime/Instant::now arbitrary; tie-break used through an uninterpreted predicate; two-node interleaving theorem not proved (per-function contracts only).',
         'technique': 'contract-based deductive verification (Verus on mechanically extracted real functions)',
@@ -37,6 +37,30 @@ CHECKS['C16'] = {
     'text': 'Verus proves on the real text of Store::remove_replica, for all table contents and namespace ids (neighbours in byte order, ids ending in 0xFF): refused while open with nothing changed; otherwise exactly the rows of that document disappear from records, by-key index, heads, capability, peers and policy tables and every other row is unchanged. The namespace range bounds it relies on are proved exact in U-bounds.',
     'design_ref': 'DESIGN.md section 5, C16',
     'note': 'Trusted: A-redb, R4, abstract open-replica set.',
+    'technique': TECH,
+}
+CHECKS['C07'] = {
+    'text': 'Verus proves on the real text: Capability::merge errs iff the ids differ (self unchanged), otherwise the result is Write iff either side was, a Write capability is never replaced, and the returned flag is exact; secret_key is Ok iff Write; from_raw(raw(c)) == c and from_raw errs exactly on unknown kinds; Store::import_namespace writes exactly merge(existing, imported) into the row of the named document and leaves every other row and table unchanged (also on every error exit); load_replica_info returns the stored capability. Lemmas over these contracts: over any sequence of imports a stored Write row never changes.',
+    'design_ref': 'DESIGN.md section 5, C07',
+    'note': 'Trusted: NamespaceSecret (opaque, bytes round trip), num_enum conversions, A-redb, R4. The actor arm propagating an upgrade to open replicas is not covered.',
+    'technique': TECH,
+}
+CHECKS['C09'] = {
+    'text': 'Framing half: Verus proves on the real text of SyncCodec::decode/encode that decoding never panics, short input is need-more-data with the buffer untouched, oversized frames are errors, a complete frame is consumed exactly, and encode appends exactly len_be32 followed by the payload to any buffer; lemmas give chunking independence and two-frame round trips over these contracts. Capability raw/from_raw round trip.',
+    'design_ref': 'DESIGN.md section 5, C09',
+    'note': 'Trusted: postcard as uninterpreted functions, BytesMut model. serde-derive round trips, snapshots and text forms are not covered.',
+    'technique': TECH,
+}
+CHECKS['C10'] = {
+    'text': 'Verus proves on the real text of BobState::{new,run,into_outcome}, run_alice and handle_connection, for every frame sequence and every local failure: no panic (every unwrap reached only with Some), a declined request returns Err(Abort) without any store call and with state unchanged, Sync-before-Init / double Init / Abort / early close are errors, Ok only after Init followed by Syncs, and the outcome can always be reported.',
+    'design_ref': 'DESIGN.md section 5, C10',
+    'note': 'Trusted: stream and store-handle shells returning arbitrary values. Liveness, actor shutdown and counter mirroring are not covered.',
+    'technique': TECH,
+}
+CHECKS['C15'] = {
+    'text': 'Verus proves on the real text that set_download_policy fails without any change for unknown documents and otherwise writes exactly the encoded policy row of that document, get_download_policy returns the decoded row or the default, get-after-set returns the policy set, and DownloadPolicy::matches / FilterKind::matches implement exactly the everything-except / nothing-except, prefix / exact rule.',
+    'design_ref': 'DESIGN.md section 5, C15',
+    'note': 'Trusted: A-redb, R4, postcard inverse axiom, Iterator::any/all specs. Text form and reopen not covered.',
     'technique': TECH,
 }
 NOT_APPLICABLE = {
